@@ -68,7 +68,8 @@ CHECKS = {
                   "filters, __regex, __converter, set_filter, compile step "
                   "of set_route) with proved equality to the model + "
                   "generated census of the inputs the dispatch code consults "
-                  "(policy theorem by vm_compute)"),
+                  "(policy theorem by vm_compute)"
+                  " + source-to-Coq translation of SimpleRequest.method_number / path and the methods table"),
     "C03": dict(
         text="Theorems: for hook lists of any length the before hooks that "
              "run are exactly hooks 0..k in order (k = first stopping hook), "
@@ -125,7 +126,8 @@ CHECKS = {
                   "make_response, to_response, the automatic-header part of "
                   "__start_response__ with proved equality to the model + "
                   "generated census of the places that name a response "
-                  "header (policy theorem by vm_compute)"),
+                  "header (policy theorem by vm_compute)"
+                  " + source-to-Coq translation of the response class constructors with proved equality to the model"),
     "C17": dict(
         text="Theorems about the modelled footprint: the status-table merge "
              "of the diagnostic page writes no pre-existing dictionary object "
@@ -332,7 +334,8 @@ CHECKS = {
         technique="Coq proof (case analysis over the credential ladder) + "
                   "vm_compute correspondence + source-to-Coq translation of "
                   "check_response, check_credentials, the check_digest "
-                  "handler with proved equality to the model"),
+                  "handler with proved equality to the model"
+                  " + source-to-Coq translation of Request.authorization (header parsing) and the request path with proved equality to the model"),
     "C12": dict(
         text="Theorems with NO hypothesis on the request path (any code "
              "points, NUL, repeated or missing leading slashes, dot "
@@ -461,7 +464,8 @@ CHECKS = {
                   "literals + vm_compute correspondence + source-to-Coq "
                   "translation of the debug-info gate in handler_from_table "
                   "with proved equality to the model + generated census of "
-                  "the places that consult an override key"),
+                  "the places that consult an override key"
+                  " + source-to-Coq translation of the effective debug flag in SimpleRequest.__init__ with proved equality to the model"),
 }
 
 NOT_YET = "check not built yet (work in progress, see DESIGN.md section 10)"
